@@ -10,41 +10,109 @@
   * `marshal_map_order_independent` : two map values holding the same entries in different iteration orders
                            marshal to identical token lists.
   * `struct_keys_in_atlas_order`    : a struct's keys appear in the order of the atlas entry's field list.
+        The statement as first written (`struct_keys_in_atlas_order_statement`) is FALSE: its hypothesis constrains
+        the field *types* only, so a string-valued (ill-typed) field value, or a named scalar type with an atlas
+        transform to a string, puts a string token in value position (`struct_keys_in_atlas_order_false_illtyped`,
+        `struct_keys_in_atlas_order_false_atlas`).  The keys themselves are always in atlas order:
+        `struct_tokens_shape` (unconditional token-stream shape), `struct_keys_in_atlas_order_of_nostr`,
+        `struct_keys_in_atlas_order_typed` (corrected hypotheses).
 -/
 import RefmtModel
+import RefmtProofs.Lemmas.KeyOrder
 set_option linter.unusedSimpArgs false
 set_option linter.unusedVariables false
 namespace Refmt.C08
 open Refmt Refmt.Obj
 
 theorem keyLe_total (mode : KeySort) (a b : Bytes) : keyLe mode a b = true ∨ keyLe mode b a = true := by
-  sorry
+  exact KeyOrder.keyLe_total mode a b
 
 theorem keyLe_trans (mode : KeySort) (a b c : Bytes) (h1 : keyLe mode a b = true) (h2 : keyLe mode b c = true) :
     keyLe mode a c = true := by
-  sorry
+  exact KeyOrder.keyLe_trans mode a b c h1 h2
 
 theorem keyLe_antisymm (mode : KeySort) (a b : Bytes) (h1 : keyLe mode a b = true) (h2 : keyLe mode b a = true) :
     a = b := by
-  sorry
+  exact KeyOrder.keyLe_antisymm mode a b h1 h2
 
 /-- the orders are what the property says -/
 theorem keyLe_rfc7049_shorter_first (a b : Bytes) (h : a.length < b.length) : keyLe .rfc7049 a b = true ∧ keyLe .rfc7049 b a = false := by
-  sorry
+  have h1 : ¬ a.length = b.length := by omega
+  have h2 : ¬ b.length = a.length := by omega
+  simp [keyLe, h1, h2]
+  omega
 
 theorem keyLe_default_is_strings (a b : Bytes) : keyLe .default a b = keyLe .strings a b := by
-  sorry
+  rfl
 
 theorem sortKeys_sorted (mode : KeySort) (kvs : List (Bytes × Val)) :
     (sortKeys mode kvs).Pairwise (fun x y => keyLe mode x.1 y.1 = true) := by
-  sorry
+  unfold sortKeys
+  exact List.pairwise_mergeSort (le := fun x y => keyLe mode x.1 y.1)
+    (fun x y z h1 h2 => keyLe_trans mode x.1 y.1 z.1 h1 h2)
+    (fun x y => by simpa using keyLe_total mode x.1 y.1) kvs
 
 theorem sortKeys_perm (mode : KeySort) (kvs : List (Bytes × Val)) : (sortKeys mode kvs).Perm kvs := by
-  sorry
+  unfold sortKeys
+  exact List.mergeSort_perm kvs _
+
+/-- entries with distinct keys are determined by their key -/
+theorem eq_of_key_eq : ∀ (l : List (Bytes × Val)), (l.map (·.1)).Nodup → ∀ {x y}, x ∈ l → y ∈ l → x.1 = y.1 → x = y := by
+  intro l
+  induction l with
+  | nil => intro _ x y hx; simp at hx
+  | cons p l ih =>
+    intro hd x y hx hy hxy
+    simp only [List.map_cons, List.nodup_cons, List.mem_map, not_exists, not_and] at hd
+    simp only [List.mem_cons] at hx hy
+    rcases hx with rfl | hx <;> rcases hy with rfl | hy
+    · rfl
+    · exact absurd hxy.symm (hd.1 y hy)
+    · exact absurd hxy (hd.1 x hx)
+    · exact ih hd.2 hx hy hxy
 
 theorem sortKeys_unique (mode : KeySort) (kvs kvs' : List (Bytes × Val)) (hp : kvs.Perm kvs')
     (hd : (kvs.map (·.1)).Nodup) : sortKeys mode kvs = sortKeys mode kvs' := by
-  sorry
+  apply List.Perm.eq_of_pairwise (le := fun x y => keyLe mode x.1 y.1 = true)
+  · intro x y hx hy h1 h2
+    have hx' : x ∈ kvs := (sortKeys_perm mode kvs).mem_iff.mp hx
+    have hy' : y ∈ kvs := hp.mem_iff.mpr ((sortKeys_perm mode kvs').mem_iff.mp hy)
+    exact eq_of_key_eq kvs hd hx' hy' (keyLe_antisymm mode _ _ h1 h2)
+  · exact sortKeys_sorted mode kvs
+  · exact sortKeys_sorted mode kvs'
+  · exact (sortKeys_perm mode kvs).trans (hp.trans (sortKeys_perm mode kvs').symm)
+
+/-- the stringified entry of a string-keyed map entry -/
+def keyStr (p : Val × Val) : Bytes × Val := (match p.1 with | .str s => s | _ => [], p.2)
+
+theorem mapM_eq_some_map {α β : Type} (f : α → Option β) (g : α → β) :
+    ∀ l : List α, (∀ p ∈ l, f p = some (g p)) → l.mapM f = some (l.map g) := by
+  intro l
+  induction l with
+  | nil => intro _; rfl
+  | cons x l ih =>
+    intro h
+    have h1 := h x (by simp)
+    have h2 := ih (fun p hp => h p (by simp [hp]))
+    simp [List.mapM_cons, h1, h2]
+
+theorem nodup_keyStr : ∀ (es : List (Val × Val)), (∀ p ∈ es, ∃ s, p.1 = .str s) →
+    (es.map (·.1)).Pairwise (fun x y => ∀ s, x = Val.str s → y ≠ Val.str s) →
+    ((es.map keyStr).map (·.1)).Nodup := by
+  intro es
+  induction es with
+  | nil => intro _ _; simp
+  | cons p es ih =>
+    intro hk hd
+    simp only [List.map_cons, List.pairwise_cons, List.mem_map, forall_exists_index, and_imp] at hd
+    simp only [List.map_cons, List.nodup_cons, List.mem_map, not_exists, not_and]
+    refine ⟨?_, ih (fun q hq => hk q (by simp [hq])) hd.2⟩
+    rintro _ ⟨q, hq, rfl⟩ heq
+    obtain ⟨s, hs⟩ := hk p (by simp)
+    obtain ⟨s', hs'⟩ := hk q (by simp [hq])
+    have : s' = s := by simpa [keyStr, hs, hs'] using heq
+    subst this
+    exact hd.1 _ q hq rfl s' hs hs'
 
 /-- Independence of map iteration / insertion order (string-keyed maps; keys distinct as in any Go map). -/
 theorem marshal_map_order_independent (ts : Types) (a : Atlas) (trs : Trs) (fuel id kt vt : Nat) (mode : KeySort)
@@ -53,7 +121,28 @@ theorem marshal_map_order_independent (ts : Types) (a : Atlas) (trs : Trs) (fuel
     (hkt : ∃ b, ts.get kt = .prim .string b) :
     marshalBare ts a trs fuel id (.map kt vt mode) (.map (some es)) =
     marshalBare ts a trs fuel id (.map kt vt mode) (.map (some es')) := by
-  sorry
+  obtain ⟨b, hkt⟩ := hkt
+  cases fuel with
+  | zero => unfold marshalBare; rfl
+  | succ fuel =>
+    have hk' : ∀ p ∈ es', ∃ s, p.1 = .str s := fun p hp' => hk p (hp.mem_iff.mpr hp')
+    unfold marshalBare
+    simp only [hkt, Option.getD_some]
+    rw [mapM_eq_some_map _ keyStr es ?_, mapM_eq_some_map _ keyStr es' ?_]
+    · simp only [Option.isNone_some]
+      rw [sortKeys_unique mode _ _ (hp.map keyStr) (nodup_keyStr es hk hd), hp.length_eq]
+    · intro p hp'
+      obtain ⟨s, hs⟩ := hk' p hp'
+      obtain ⟨k, x⟩ := p
+      simp only at hs
+      subst hs
+      rfl
+    · intro p hp'
+      obtain ⟨s, hs⟩ := hk p hp'
+      obtain ⟨k, x⟩ := p
+      simp only at hs
+      subst hs
+      rfl
 
 /-- keys of the tokens a struct machine emits, in order -/
 def structKeys (fields : List SMField) (v : Val) : List Bytes :=
@@ -67,12 +156,197 @@ def keysOf : List Tok → List Bytes
   | [] => []
   | t :: rest => (match t.body with | .str s => [s] | _ => []) ++ keysOf rest
 
-theorem struct_keys_in_atlas_order (ts : Types) (a : Atlas) (trs : Trs) (fuel id : Nat) (e : Entry) (fields : List SMField)
+/-- The statement as originally written.  It is FALSE (see `struct_keys_in_atlas_order_false_illtyped` and
+    `struct_keys_in_atlas_order_false_atlas` below): `hscalar` constrains only the *type descriptors* of the
+    fields, but (1) nothing ties the value `v` to those types, and the primitive machine emits the token of the
+    value it is handed; (2) a named (non-builtin) scalar type may have an atlas entry (e.g. a transform to a
+    string type), in which case the field is not marshalled by the primitive machine at all.  In both cases a
+    field *value* contributes a string token that `keysOf` counts as a key.  The corrected versions are
+    `struct_tokens_shape` (general), `struct_keys_in_atlas_order_of_nostr` and `struct_keys_in_atlas_order_typed`. -/
+def struct_keys_in_atlas_order_statement : Prop :=
+  ∀ (ts : Types) (a : Atlas) (trs : Trs) (fuel id : Nat) (e : Entry) (fields : List SMField)
     (v : Val) (toks : List Tok)
     (hscalar : ∀ f ∈ fields, ∃ k b, ts.get f.ty = .prim k b ∧ k ≠ .string)   -- scalar, non-string fields: every string token is a key
+    (h : marshalBare ts a trs (fuel + 1) id (.structMap e fields) v = ⟨toks, none⟩),
+    keysOf toks = structKeys fields v
+
+/-- Counterexample 1 (ill-typed value): one field `a` of builtin type `int`, route `[]`, but the value handed
+    in is the string `"b"`.  Output `{ "a": "b" }`, so `keysOf = ["a","b"] ≠ ["a"]`. -/
+theorem struct_keys_in_atlas_order_false_illtyped : ¬ struct_keys_in_atlas_order_statement := by
+  intro hst
+  have h := hst [(0, .prim .int true)] ⟨[], .default⟩ ⟨fun _ _ => none, fun _ _ => none⟩ 5 7
+    ⟨true, 7, none, .invalid⟩ [⟨[97], false, [], 0, false⟩] (.str [98])
+    [⟨.mapOpen 1, none⟩, ⟨.str [97], none⟩, ⟨.str [98], none⟩, ⟨.mapClose, none⟩]
+    (by intro f hf
+        simp only [List.mem_singleton] at hf
+        subst hf
+        exact ⟨.int, true, by simp [Types.get, List.lookup], by decide⟩)
+    (by simp [marshalBare, marshalFields, marshalV, traverse, MOut.seq, MOut.ok, peel, Types.get, pickBare,
+          primTok, List.lookup])
+  simp [keysOf, structKeys, traverse] at h
+
+/-- Counterexample 2 (well-typed value, atlas override): the field type is a named `int` type (`.prim .int false`)
+    for which the atlas registers a transform to `string`; the value is the integer `5`.  The transform machine
+    emits a string token for the field value: output `{ "a": "b" }`. -/
+theorem struct_keys_in_atlas_order_false_atlas : ¬ struct_keys_in_atlas_order_statement := by
+  intro hst
+  have h := hst [(0, .prim .int false), (1, .prim .string true)] ⟨[⟨true, 0, none, .transform 0 1 0⟩], .default⟩
+    ⟨fun _ _ => some (.str [98]), fun _ _ => none⟩ 5 7
+    ⟨true, 7, none, .invalid⟩ [⟨[97], false, [], 0, false⟩] (.int 5)
+    [⟨.mapOpen 1, none⟩, ⟨.str [97], none⟩, ⟨.str [98], none⟩, ⟨.mapClose, none⟩]
+    (by intro f hf
+        simp only [List.mem_singleton] at hf
+        subst hf
+        exact ⟨.int, false, by simp [Types.get, List.lookup], by decide⟩)
+    (by simp [marshalBare, marshalFields, marshalV, traverse, MOut.seq, MOut.ok, peel, Types.get, pickBare,
+          Atlas.get, machForEntry, retagFirst, primTok, List.lookup])
+  simp [keysOf, structKeys, traverse] at h
+
+/-! ### Corrected versions -/
+
+theorem keysOf_append (x y : List Tok) : keysOf (x ++ y) = keysOf x ++ keysOf y := by
+  induction x with
+  | nil => rfl
+  | cons t x ih => simp [keysOf, ih, List.append_assoc]
+
+/-- a successful sequential composition is the concatenation of two successful outputs -/
+theorem seq_ok {x : MOut} {f : Unit → MOut} {toks : List Tok} (h : x.seq f = ⟨toks, none⟩) :
+    ∃ t1 t2, x = ⟨t1, none⟩ ∧ f () = ⟨t2, none⟩ ∧ toks = t1 ++ t2 := by
+  obtain ⟨xt, xf⟩ := x
+  cases xf with
+  | some fl => simp [MOut.seq] at h
+  | none =>
+    simp only [MOut.seq, MOut.mk.injEq] at h
+    refine ⟨xt, (f ()).toks, rfl, ?_, h.1.symm⟩
+    cases hf : f () with
+    | mk ft ff => rw [hf] at h; simp only at h; simp [h.2]
+
+/-- The token stream of the fields of a struct, for a list of fields in atlas order: for each field, the key
+    token carrying the field's name, then the tokens of a successful marshal of the field's value. -/
+inductive FieldToks (ts : Types) (a : Atlas) (trs : Trs) (v : Val) : List SMField → List Tok → Prop
+  | nil : FieldToks ts a trs v [] []
+  | cons {f : SMField} {fs : List SMField} {fv : Val} {fuel : Nat} {c rest : List Tok} :
+      traverse f.route v = some fv → marshalV ts a trs fuel f.ty fv = ⟨c, none⟩ →
+      FieldToks ts a trs v fs rest → FieldToks ts a trs v (f :: fs) (⟨.str f.name, none⟩ :: (c ++ rest))
+
+theorem marshalFields_shape (ts : Types) (a : Atlas) (trs : Trs) (v : Val) :
+    ∀ (fuel : Nat) (fs : List SMField) (toks : List Tok),
+      marshalFields ts a trs fuel fs v = ⟨toks, none⟩ → FieldToks ts a trs v fs toks := by
+  intro fuel
+  induction fuel with
+  | zero => intro fs toks h; simp [marshalFields, MOut.bad] at h
+  | succ fuel ih =>
+    intro fs toks h
+    cases fs with
+    | nil =>
+      simp only [marshalFields, MOut.ok, MOut.mk.injEq] at h
+      rw [← h.1]
+      exact .nil
+    | cons f rest =>
+      rw [marshalFields] at h
+      split at h
+      · simp [MOut.bad] at h
+      · rename_i fv hfv
+        obtain ⟨t1, t2, h1, h2, rfl⟩ := seq_ok h
+        obtain ⟨t3, t4, h3, h4, rfl⟩ := seq_ok h2
+        simp only [MOut.ok, MOut.mk.injEq] at h1
+        rw [← h1.1]
+        exact FieldToks.cons (c := t3) (rest := t4) hfv h3 (ih rest t4 h4)
+
+/-- GENERAL FORM (no hypothesis on the fields): a successful struct marshal is the open token with the number
+    of emitted fields, then for each emitted field **in atlas order** its name followed by its value's tokens,
+    then the close token.  The emitted fields are exactly those counted by `structKeys`. -/
+theorem struct_tokens_shape (ts : Types) (a : Atlas) (trs : Trs) (fuel id : Nat) (e : Entry) (fields : List SMField)
+    (v : Val) (toks : List Tok)
+    (h : marshalBare ts a trs (fuel + 1) id (.structMap e fields) v = ⟨toks, none⟩) :
+    ∃ (emit : List SMField) (body : List Tok),
+      emit = (fields.filter fun f =>
+        !f.ignore && (match traverse f.route v with
+                      | none => false
+                      | some fv => !(f.omitEmpty && isEmpty 1000 fv))) ∧
+      emit.map (·.name) = structKeys fields v ∧
+      FieldToks ts a trs v emit body ∧
+      toks = ⟨.mapOpen emit.length, e.tag⟩ :: (body ++ [⟨.mapClose, none⟩]) := by
+  rw [marshalBare] at h
+  obtain ⟨t1, t2, h1, h2, rfl⟩ := seq_ok h
+  obtain ⟨t3, t4, h3, h4, rfl⟩ := seq_ok h2
+  simp only [MOut.ok, MOut.mk.injEq] at h1 h4
+  refine ⟨_, t3, rfl, rfl, marshalFields_shape ts a trs v fuel _ t3 h3, ?_⟩
+  rw [← h1.1, ← h4.1]
+  rfl
+
+theorem keysOf_fieldToks (ts : Types) (a : Atlas) (trs : Trs) (v : Val) (fs : List SMField) (toks : List Tok)
+    (hft : FieldToks ts a trs v fs toks)
+    (hnostr : ∀ f ∈ fs, ∀ fv fuel' out, traverse f.route v = some fv →
+        marshalV ts a trs fuel' f.ty fv = ⟨out, none⟩ → keysOf out = []) :
+    keysOf toks = fs.map (·.name) := by
+  induction hft with
+  | nil => rfl
+  | cons hfv hm hrest ih =>
+    rename_i f fs fv fuel c rest
+    have hc := hnostr f (by simp) fv fuel c hfv hm
+    have hr := ih (fun g hg => hnostr g (by simp [hg]))
+    simp [keysOf, keysOf_append, hc, hr]
+
+/-- CORRECTED STATEMENT, semantic hypothesis: if no field value marshals to a stream containing a string token,
+    the string tokens of the output are exactly the emitted fields' names, in atlas order. -/
+theorem struct_keys_in_atlas_order_of_nostr (ts : Types) (a : Atlas) (trs : Trs) (fuel id : Nat) (e : Entry)
+    (fields : List SMField) (v : Val) (toks : List Tok)
+    (hnostr : ∀ f ∈ fields, ∀ fv fuel' out, traverse f.route v = some fv →
+        marshalV ts a trs fuel' f.ty fv = ⟨out, none⟩ → keysOf out = [])
     (h : marshalBare ts a trs (fuel + 1) id (.structMap e fields) v = ⟨toks, none⟩) :
     keysOf toks = structKeys fields v := by
-  sorry
+  obtain ⟨emit, body, hemit, hkeys, hft, rfl⟩ := struct_tokens_shape ts a trs fuel id e fields v toks h
+  have hb := keysOf_fieldToks ts a trs v emit body hft (fun f hf => hnostr f (by
+    rw [hemit] at hf
+    exact (List.mem_filter.mp hf).1))
+  simp [keysOf, keysOf_append, hb, hkeys]
+
+/-- a scalar type with no atlas override, holding a non-string value, marshals without string tokens -/
+theorem marshalV_prim_nostr (ts : Types) (a : Atlas) (trs : Trs) (fuel id : Nat) (k : Kind) (b : Bool) (fv : Val)
+    (out : List Tok) (hty : ts.get id = .prim k b) (hb : b = true ∨ a.get id = none)
+    (hv : ∀ s, fv ≠ .str s) (hout : marshalV ts a trs fuel id fv = ⟨out, none⟩) : keysOf out = [] := by
+  cases fuel with
+  | zero => simp [marshalV, MOut.bad] at hout
+  | succ fuel =>
+    have hpeel : peel ts 64 0 id = (0, id) := by simp [peel, hty]
+    have hpick : pickBare ts a id = .prim := by
+      unfold pickBare
+      rw [hty]
+      rcases hb with rfl | hb
+      · rfl
+      · cases b <;> simp [hb]
+    rw [marshalV] at hout
+    simp only [hpeel, hpick, beq_self_eq_true, if_true] at hout
+    cases fuel with
+    | zero => simp [marshalBare, MOut.bad] at hout
+    | succ fuel =>
+      rw [marshalBare] at hout
+      cases fv <;> simp [primTok, MOut.ok, MOut.bad] at hout
+      all_goals first
+        | (subst hout; simp [keysOf]; done)
+        | (exact absurd rfl (hv _))
+        | (rename_i bo; cases bo <;> simp [primTok, MOut.ok] at hout <;> subst hout <;> simp [keysOf])
+
+/-- CORRECTED STATEMENT, concrete hypotheses: `hscalar` as in the original, plus (`hatlas`) the scalar types are
+    builtin or have no atlas entry, plus (`hval`) the field values are not strings (as holds for every value that
+    is well typed at a non-string scalar type). -/
+theorem struct_keys_in_atlas_order_typed (ts : Types) (a : Atlas) (trs : Trs) (fuel id : Nat) (e : Entry)
+    (fields : List SMField) (v : Val) (toks : List Tok)
+    (hscalar : ∀ f ∈ fields, ∃ k b, ts.get f.ty = .prim k b ∧ k ≠ .string)
+    (hatlas : ∀ f ∈ fields, (∃ k, ts.get f.ty = .prim k true) ∨ a.get f.ty = none)
+    (hval : ∀ f ∈ fields, ∀ fv, traverse f.route v = some fv → ∀ s, fv ≠ .str s)
+    (h : marshalBare ts a trs (fuel + 1) id (.structMap e fields) v = ⟨toks, none⟩) :
+    keysOf toks = structKeys fields v := by
+  apply struct_keys_in_atlas_order_of_nostr ts a trs fuel id e fields v toks _ h
+  intro f hf fv fuel' out hfv hout
+  obtain ⟨k, b, hty, _⟩ := hscalar f hf
+  refine marshalV_prim_nostr ts a trs fuel' f.ty k b fv out hty ?_ (hval f hf fv hfv) hout
+  rcases hatlas f hf with ⟨k', hk'⟩ | hn
+  · rw [hty] at hk'
+    simp only [TyDesc.prim.injEq] at hk'
+    exact Or.inl hk'.2
+  · exact Or.inr hn
 
 example : keyLe .rfc7049 [98] [97, 97] = true ∧ keyLe .strings [98] [97, 97] = false := by decide
 
